@@ -9,9 +9,11 @@ import (
 	"strings"
 	"time"
 
+	"github.com/kardiachain/go-kardia/kai/accounts/abi"
 	"github.com/kardiachain/go-kardia/kvm"
 	"github.com/kardiachain/go-kardia/lib/common"
 	"github.com/kardiachain/go-kardia/mainchain/blockchain"
+	"github.com/kardiachain/go-kardia/mainchain/staking"
 	"github.com/kardiachain/go-kardia/types"
 
 	"verifharness/c09/chainkit"
@@ -90,6 +92,7 @@ type scenarioOpts struct {
 	HandOnly   bool // only hand-built blocks (deterministic block content: comparable across processes)
 	ValHook    bool
 	Reopen     bool
+	Staking    bool // delegate / undelegate / withdraw calls of the real validator contracts (validator power moves through the real application)
 }
 
 type heightRec struct {
@@ -148,6 +151,9 @@ func drawScenario(r *rand.Rand, quick bool, handOnly bool) scenarioOpts {
 	}
 	o.ValHook = o.NVals >= 2 && r.Intn(2) == 0
 	o.Reopen = r.Intn(2) == 0
+	if !o.ValHook && r.Intn(2) == 0 {
+		o.Staking = true
+	}
 	return o
 }
 
@@ -236,6 +242,12 @@ func runScenario(cs *core.Case, r *rand.Rand, o scenarioOpts, tag string) *finge
 			}
 		}
 	}
+	var si *stakingInfo
+	if o.Staking {
+		if si = newStakingInfo(rs.chains[0], o.NVals); si == nil {
+			run.Count("staking_info_unavailable", 1)
+		}
+	}
 	fp := &fingerprint{}
 	wit := func(extra map[string]interface{}) map[string]interface{} {
 		m := map[string]interface{}{"scenario": o, "tag": tag, "heights": fp.Heights}
@@ -296,7 +308,7 @@ func runScenario(cs *core.Case, r *rand.Rand, o scenarioOpts, tag string) *finge
 			builder = 0
 		}
 		bch := rs.chains[builder]
-		specs := planTxs(r, w, bch.N.BC, height)
+		specs := planTxs(r, w, bch.N.BC, height, si)
 		mode := "hand-built"
 		if !o.HandOnly && r.Intn(2) == 0 {
 			mode = "CreateProposalBlock"
@@ -308,20 +320,23 @@ func runScenario(cs *core.Case, r *rand.Rand, o scenarioOpts, tag string) *finge
 			txs = append(txs, s.Sign(w))
 		}
 		if mode == "CreateProposalBlock" {
-			bch.N.Pool.VerifWaitReorg()
+			// (no waiting for the pool's asynchronous head reset: a pool that is one block behind only makes the
+			// proposer include stale transactions, which every replica must skip alike)
 			accepted := 0
 			for _, tx := range txs {
 				if err := bch.N.Pool.AddLocal(tx); err == nil {
 					accepted++
 				}
 			}
-			bch.N.Pool.VerifWaitReorg()
 			run.Count("pool_accepted", accepted)
 			blk, ps = bch.Propose(lastCommit)
 		} else {
 			gl := uint64(300000 + r.Intn(4000000))
 			if r.Intn(4) == 0 {
 				gl = uint64(60000 + r.Intn(200000))
+			}
+			if si != nil {
+				gl = 30000000 // staking calls carry a gas limit of 5,000,000
 			}
 			blk, ps = bch.HandBlock(lastCommit, gl, txs)
 		}
@@ -344,9 +359,9 @@ func runScenario(cs *core.Case, r *rand.Rand, o scenarioOpts, tag string) *finge
 		// ---- apply on every replica
 		rec := heightRec{Height: height, Mode: mode, Proposer: rs.cfgs[builder].Name, Block: fmt.Sprintf("%x", blk.Hash().Bytes()[:8]), Txs: len(blk.Transactions()), Specs: specs}
 		type res struct {
-			err                       error
+			err                               error
 			state, info, pub, appvals, loaded string
-			receipts                  int
+			receipts                          int
 		}
 		results := make([]res, len(rs.chains))
 		for i, ch := range rs.chains {
@@ -390,9 +405,9 @@ func runScenario(cs *core.Case, r *rand.Rand, o scenarioOpts, tag string) *finge
 			fp.Heights = append(fp.Heights, rec)
 			switch {
 			case nFail < len(results):
-				cs.Violation("block-accepted-by-some-replicas-only:"+errKind(results, mode), fmt.Sprintf("height %d (%s by %s): %s", h, mode, rs.cfgs[builder].Name, strings.Join(errs, " | ")), wit(nil))
+				cs.Violation("block-accepted-by-some-replicas-only:"+errKind(errs), fmt.Sprintf("height %d (%s by %s): %s", h, mode, rs.cfgs[builder].Name, strings.Join(errs, " | ")), wit(nil))
 			case mode == "CreateProposalBlock":
-				cs.Violation("proposer-block-rejected:"+errKind(results, mode), fmt.Sprintf("height %d: the block built by CreateProposalBlock on %s is rejected by every replica: %s", h, rs.cfgs[builder].Name, errs[0]), wit(nil))
+				cs.Violation("proposer-block-rejected:"+errKind(errs), fmt.Sprintf("height %d: the block built by CreateProposalBlock on %s is rejected by every replica: %s", h, rs.cfgs[builder].Name, errs[0]), wit(nil))
 			default:
 				run.Inconclusive(fmt.Sprintf("hand-built block rejected by every replica at height %d (case %s:%d): %s", h, cs.Group, cs.I, errs[0]))
 			}
@@ -452,11 +467,19 @@ func runScenario(cs *core.Case, r *rand.Rand, o scenarioOpts, tag string) *finge
 		if strings.Contains(x0.info, "log{") {
 			run.Count("blocks_with_logs", 1)
 		}
+		for _, sp := range specs {
+			if strings.HasPrefix(sp.Class, "staking-") {
+				run.Count("staking_txs_generated", 1)
+			}
+		}
 		if len(rs.chains[0].AppVals) > 0 {
 			run.Count("blocks_with_validator_list_from_app", 1)
 		}
 		if rs.chains[0].State.LastHeightValidatorsChanged == height+2 {
 			run.Count("validator_set_changes", 1)
+			if si != nil {
+				run.Count("validator_set_changes_through_staking_txs", 1)
+			}
 		}
 		if o.Galaxias == "cross" && height == o.ForkHeight {
 			run.Count("fork_blocks_executed", 1)
@@ -470,9 +493,9 @@ func runScenario(cs *core.Case, r *rand.Rand, o scenarioOpts, tag string) *finge
 	return fp
 }
 
-func errKind(results interface{}, mode string) string {
-	s := fmt.Sprint(results)
-	for _, k := range []string{"AppHash", "LastBlockID", "ValidatorsHash", "NextValidatorHash", "block time", "invalid block time", "signature", "commit failed", "proposer"} {
+func errKind(errs []string) string {
+	s := strings.Join(errs, " ")
+	for _, k := range []string{"AppHash", "LastBlockID", "ValidatorsHash", "NextValidatorHash", "block time", "signature", "commit failed", "proposer"} {
 		if strings.Contains(s, k) {
 			return strings.ReplaceAll(strings.ToLower(k), " ", "-")
 		}
@@ -482,7 +505,7 @@ func errKind(results interface{}, mode string) string {
 
 // planTxs draws the transactions of one block from the head state of a replica, plus calls of the
 // fixed contracts (several per block, so that consecutive blocks touch the same slots and accounts).
-func planTxs(r *rand.Rand, w *txgen.World, bc *blockchain.BlockChain, height uint64) []*txgen.TxSpec {
+func planTxs(r *rand.Rand, w *txgen.World, bc *blockchain.BlockChain, height uint64, si *stakingInfo) []*txgen.TxSpec {
 	st, err := bc.State()
 	if err != nil {
 		return nil
@@ -496,7 +519,12 @@ func planTxs(r *rand.Rand, w *txgen.World, bc *blockchain.BlockChain, height uin
 	n := 2 + r.Intn(7)
 	for i := 0; i < n; i++ {
 		var spec *txgen.TxSpec
-		if r.Intn(3) == 0 { // call of a fixed contract
+		if si != nil && r.Intn(4) == 0 {
+			from := r.Intn(len(w.EOAs))
+			spec = si.tx(r, from, nonce[w.EOAs[from]])
+		}
+		if spec != nil {
+		} else if r.Intn(3) == 0 { // call of a fixed contract
 			from := r.Intn(len(w.EOAs))
 			to := fixedAddr(r.Intn(4))
 			spec = &txgen.TxSpec{From: from, To: &to, Nonce: nonce[w.EOAs[from]], Value: big.NewInt(int64(r.Intn(100))), Gas: uint64(150000 + r.Intn(200000)), Price: big.NewInt(int64(1 + r.Intn(50))), Class: "fixed-contract"}
@@ -523,3 +551,61 @@ func planTxs(r *rand.Rand, w *txgen.World, bc *blockchain.BlockChain, height uin
 var totalTxField = regexp.MustCompile(` totaltx=\d+ `)
 
 func maskTotalTx(s string) string { return totalTxField.ReplaceAllString(s, " totaltx=* ") }
+
+// stakingInfo holds what is needed to compose calls of the validator contracts.
+type stakingInfo struct {
+	valSmc []common.Address
+	abi    *abi.ABI
+}
+
+func newStakingInfo(ch *chainkit.Chain, nVals int) *stakingInfo {
+	su, err := staking.NewSmcStakingUtil()
+	if err != nil {
+		return nil
+	}
+	vu, err := staking.NewSmcValidatorUtil()
+	if err != nil {
+		return nil
+	}
+	st, err := ch.N.BC.State()
+	if err != nil {
+		return nil
+	}
+	info := &stakingInfo{abi: vu.Abi}
+	hd := &types.Header{Height: 1, Time: ch.Gen.Timestamp, GasLimit: 100000000}
+	for i := 0; i < nVals; i++ {
+		a, err := su.GetValFromOwner(st, hd, ch.N.BC, kvm.Config{}, ch.ValAddr(i))
+		if err != nil || a == (common.Address{}) {
+			return nil
+		}
+		info.valSmc = append(info.valSmc, a)
+	}
+	return info
+}
+
+// tx draws one staking call.
+func (si *stakingInfo) tx(r *rand.Rand, from int, nonce uint64) *txgen.TxSpec {
+	to := si.valSmc[r.Intn(len(si.valSmc))]
+	unit := new(big.Int).Exp(big.NewInt(10), big.NewInt(24), nil)
+	s := &txgen.TxSpec{From: from, To: &to, Nonce: nonce, Value: new(big.Int), Gas: 5000000, Price: big.NewInt(1)}
+	var err error
+	switch r.Intn(6) {
+	case 0, 1, 2:
+		s.Data, err = si.abi.Pack("delegate")
+		s.Value = new(big.Int).Mul(unit, big.NewInt(int64(1+r.Intn(30))))
+		s.Class = "staking-delegate"
+	case 3:
+		s.Data, err = si.abi.Pack("undelegateWithAmount", new(big.Int).Mul(unit, big.NewInt(int64(1+r.Intn(10)))))
+		s.Class = "staking-undelegate-amount"
+	case 4:
+		s.Data, err = si.abi.Pack("undelegate")
+		s.Class = "staking-undelegate"
+	default:
+		s.Data, err = si.abi.Pack("withdrawRewards")
+		s.Class = "staking-withdraw-rewards"
+	}
+	if err != nil {
+		return nil
+	}
+	return s
+}
